@@ -48,3 +48,27 @@ for p in sorted(seeds):
             m=re.search(r'replay=\S*/([^/ ]+)\.json',v); how=(m.group(1) if m else '')[:90]
         else: res='MISSED'; how=''
         print(f"| {sid} | {notes} | {res} | {how} |")
+
+# ---- per-property claims, from props/*.json (mode: python3 tools/mkstatus.py claims) ----
+import sys
+if len(sys.argv) > 1 and sys.argv[1] == 'claims':
+    print()
+    for i in sorted(props):
+        f=f'{V}/props/{i}.json'
+        if i in claimed and os.path.exists(f):
+            p=json.load(open(f))
+            print(f"#### {i} — {props[i]['title']}\n")
+            print("*Claimed (level: %s).* %s\n" % (p.get('level','proof'), p['level_text']))
+            print("*Limits and assumptions.* %s\n" % p['level_note'])
+            if p.get('undecided_clauses'):
+                print("*Clauses of the property left undecided:* " + "; ".join(p['undecided_clauses']) + ".\n")
+            ncs=[e for e in nc if e['property']==i]
+            if ncs:
+                print("*Obligations under contract but not claimed:*")
+                for e in ncs:
+                    print("  * `%s` — %s" % (e['re'].replace('\\\\','\\'), e['reason']))
+                print()
+        else:
+            na=[x['reason'] for x in man['not_applicable'] if x['property_id']==i]
+            print(f"#### {i} — {props[i]['title']}\n")
+            print("*Not claimed.* %s\n" % (na[0] if na else ''))
